@@ -26,6 +26,7 @@ class Lemma:
         # functions that the real helpers need not take, so it is replayed natively first and, when it does not reproduce,
         # reported from the encoding (as the contract-precondition class is)
         self.abstract_witness = abstract_witness
+        self.optional = False         # True: skipped (with a note) when its literal scaling cannot be applied to the current source
         self.split_depth = split_depth   # parallelise by the first k verifChoice calls
 
 
@@ -66,7 +67,17 @@ def run_lemmas(ctx, lemmas, procs=16):
         files = e2run.harness_files(list(key[0]))
         entries = sorted(set(l.entry for l in ls))
         t0 = time.time()
-        prog, info = e2run.lower(files, entries, stop=ls[0].stop, stopfn=ls[0].stopfn, scale=ls[0].scale, tags=ls[0].tags)
+        try:
+            prog, info = e2run.lower(files, entries, stop=ls[0].stop, stopfn=ls[0].stopfn, scale=ls[0].scale, tags=ls[0].tags)
+        except RuntimeError as e:
+            if "scaled constant lit:" in str(e) and all(getattr(l, "optional", False) for l in ls):
+                # the literal this lemma scales (e.g. the 8<<10 sync/async threshold) is no longer spelled that way in the source:
+                # the lemma cannot be set up; coverage is reduced, nothing is claimed and nothing is alarmed
+                for l in ls:
+                    ctx.assume("lemma %s NOT RUN: the source literal it scales was not found (%s)" % (l.name, str(e).strip().splitlines()[-1][:160]))
+                    ctx.add_lemma(l.name, "skipped", bound=l.bound, desc=l.desc)
+                continue
+            raise
         ctx.log("lowered %s: %s (%.1fs)" % (",".join(entries), info["msg"], time.time() - t0))
         if ls[0].scale:
             ctx.scaled.update(ls[0].scale)
